@@ -414,6 +414,33 @@ pub fn materialize(spec: &str) -> Option<Vec<u8>> {
         }
         return Some(out);
     }
+    if let Some(rest) = spec.strip_prefix("wide:") {
+        // one very long flat sequence with nested constructs late in it (positions beyond 2^16): `n` constant/drop
+        // pairs, then a block, a loop and an if/else with a little content each, then a few more instructions
+        let n: usize = rest.parse().ok()?;
+        let mut m = MSpec::default();
+        m.types.push((vec![], vec![]));
+        let mut c = Code::new();
+        for i in 0..n {
+            c.i32_const((i % 100) as i32).drop_();
+        }
+        c.block(&BT::Empty);
+        c.i32_const(1).drop_();
+        c.end_();
+        c.loop_(&BT::Empty);
+        c.i32_const(2).drop_();
+        c.end_();
+        c.i32_const(1).if_(&BT::Empty);
+        c.i32_const(3).drop_();
+        c.else_();
+        c.i32_const(4).drop_();
+        c.end_();
+        c.i32_const(5).drop_();
+        let code = c.end();
+        m.funcs.push(FuncSpec { ty: 0, locals: vec![], code });
+        m.exports.push(Export { name: "f".into(), kind: ExportKind::Func, index: 0 });
+        return Some(m.encode());
+    }
     if let Some(rest) = spec.strip_prefix("deep:") {
         let mut it = rest.splitn(2, ':');
         let kind = it.next()?;
